@@ -883,6 +883,30 @@ class Extract:
     rename: str = ""
 
 
+MUT_BINDINGS: list = []   # unit header `//! mut_bindings: Path::Variant ...`: `Path::Variant(x)` patterns bind `mut x`
+
+
+def rw_mut_bindings(toks, rep):
+    """a pattern `Path::Variant(ident)` of a listed variant binds `mut ident` (the double's methods take `&mut self` where
+    the std method consumes the value; see the resolution axioms of the entry doubles)"""
+    if not MUT_BINDINGS:
+        return toks
+    out = list(toks)
+    for path in MUT_BINDINGS:
+        pat = pat_tokens(path + "(")
+        n = 0
+        for (a, b) in reversed(_find_seq_any(out, pat)):
+            k = _next_sig(out, b)
+            if k < len(out) and out[k].kind == IDENT and out[k].text not in ("mut", "ref", "_"):
+                k2 = _next_sig(out, k)
+                if k2 < len(out) and out[k2].text == ")":
+                    out[k:k] = [T("raw", "mut ")]
+                    n += 1
+        if n:
+            rep.append(("R8c", f"`{path}(x)` binds `mut x` ({n}x)"))
+    return out
+
+
 DIRECTIVE = re.compile(r"^\s*//@(\+?)\s?(.*)$")
 
 
@@ -1220,6 +1244,8 @@ def build(template_text: str, repo: str, unit: str) -> Built:
         for c in exx.clauses:
             if c.kind in ("loopentry", "looppre", "loophead", "looptail", "loopreturns", "loopafter"):
                 c.text = _mark_hint(c.text)
+    mm_ = re.search(r"^//! mut_bindings:\s*(.+)$", template_text, re.M)
+    MUT_BINDINGS[:] = mm_.group(1).split() if mm_ else []
     mb = re.search(r"^//! broadcast_use:\s*(.+)$", template_text, re.M)
     if mb:
         # unit-wide `broadcast use` (e.g. the drop-resolution axioms of the container doubles): appended to the entry
@@ -1431,7 +1457,7 @@ def _build_fn(sf: SourceFile, item: Item, impl, ex: Extract, props, rep, unit, a
     body_toks = list(toks_all[item.hdr_end:item.end])   # includes braces
 
     # optional: inline block extraction (R0 anchors)
-    if "block_from" in a or "block_back" in a:
+    if "block_from" in a or "block_back" in a or "block_arm" in a:
         body_toks = _extract_block(body_toks, a.get("block_from", ""), a.get("block_to"), a, rep)
         sig_toks = lex(a["wrap"])
         qual = qual + "#" + (a.get("blockname") or "block")
@@ -1439,6 +1465,7 @@ def _build_fn(sf: SourceFile, item: Item, impl, ex: Extract, props, rep, unit, a
     sig_toks = rw_strip_comments(sig_toks, rep)
     sig_toks = rw_vis(sig_toks, rep)
     body_toks = rw_strip_comments(body_toks, rep)
+    body_toks = rw_mut_bindings(body_toks, rep)
     rules = ex.rules
     if "R2" in rules:
         sig_toks = rw_R2_async(sig_toks, rep)
@@ -1685,7 +1712,7 @@ def _build_fn(sf: SourceFile, item: Item, impl, ex: Extract, props, rep, unit, a
         rep.append(("R0", f"fn renamed to {ex.rename}"))
     where_txt = ""
     wpos = _top_level_where(sig_toks)
-    if wpos is not None and "block_from" not in a and "block_back" not in a:
+    if wpos is not None and "block_from" not in a and "block_back" not in a and "block_arm" not in a:
         where_txt = text_of(sig_toks[wpos:]).strip()
         sig_text = text_of(sig_toks[:wpos]).rstrip()
     if ex.ret:
@@ -1955,6 +1982,20 @@ def _clause_lines(c, indent="        "):
 
 
 def _extract_block(body_toks, frm, to, a, rep):
+    if a.get("block_arm"):
+        # the whole body `{ ... }` of the match arm whose pattern text is given (`PATTERN =>`): whatever statements a
+        # change adds to the arm are inside the block
+        ap = pat_tokens(a["block_arm"])
+        ah = _find_seq_any(body_toks, ap)
+        if len(ah) != 1:
+            raise AnchorLost(f"block_arm {a['block_arm']!r}: {len(ah)} matches")
+        ob = _next_sig(body_toks, ah[0][1])
+        if ob >= len(body_toks) or body_toks[ob].text != "{":
+            raise AnchorLost(f"block_arm {a['block_arm']!r}: the arm body is not a block")
+        cb = match_close(body_toks, ob)
+        rep.append(("R0", f"inline block: body of the match arm `{a['block_arm'][:60]}` wrapped as `{a['wrap']}`"))
+        tail = a.get("tail", "")
+        return [T(PUNCT, "{"), T(WS, "\n")] + body_toks[ob + 1:cb] + [T("raw", "\n" + tail + "\n"), T(PUNCT, "}")]
     pat = pat_tokens(frm)
     hits = _find_seq_any(body_toks, pat) if pat else []
     if a.get("block_back") and to:
